@@ -213,6 +213,12 @@ class Context:
                 #       and their related description.
                 failed_processes.update({process for process in status.running_processes()
                                          if process.invalidate_identifier(status.identifier)})
+                # NOTE: a process that was STOPPING on the lost Supvisors instance is not considered as running,
+                #       although the Supvisors instance is still referenced in its running identifiers.
+                #       It must be invalidated too (no STOPPED event will ever come), but it is not a failure.
+                for process in status.processes.values():
+                    if status.identifier in process.running_identifiers:
+                        process.invalidate_identifier(status.identifier)
         # trigger the corresponding Supvisors events
         self.publish_process_failures(failed_processes)
         #  return the identifiers of all invalidated Supvisors instances and the processes declared in failure
